@@ -474,8 +474,23 @@ macro_rules! family {
                                 s.o3(v.reflect(an));
                             }
                         }
+                        // (d) a unit quaternion whose vector part is tiny (down to the subnormal range, where |v|^2 underflows):
+                        // the axis that to_axis_angle returns is a direction for from_axis_angle and the other consumers
+                        {
+                            let lim = if core::mem::size_of::<F>() == 4 { 149.0 } else { 1074.0 };
+                            let e = (2.0f64).powf(-c.r(20.0, lim)) as F;
+                            let d = seed_v3(c).normalize();
+                            let qt = $Q::from_xyzw(d.x * e, d.y * e, d.z * e, 1.0);
+                            if qt.is_normalized() && d.is_finite() {
+                                let (ax, an) = qt.to_axis_angle();
+                                s.p_uv3("Quat::to_axis_angle(unit quaternion with a tiny vector part).0", ax);
+                                s.of(an);
+                                s.o3(qt.to_scaled_axis());
+                                s.oq($Q::from_axis_angle(ax, an));
+                            }
+                        }
                         if fed { s.consumer_steps_on_produced += 1; }
-                        "negated end points; nearly-unit quaternions and directions"
+                        "negated end points; nearly-unit quaternions and directions; tiny rotations"
                     }
                     _ => { let (q, fed) = uq(c, s); if let Some(a) = pick(c, &s.a3) { let _ = a; } let m = $M3::from_quat(q); s.oq($Q::from_mat3(&m)); let m4_ = $M4::from_quat(q); s.oq($Q::from_mat4(&m4_)); if fed { s.consumer_steps_on_produced += 1; } "quat<->mat round trip" }
                 }
